@@ -33,6 +33,9 @@ func PlainText(f APIHandler) APIHandler {
 			data = err.Error()
 		}
 		switch d := data.(type) {
+		case nil:
+			// handlers with nothing to say (e.g. /debug/freememory) answer with an empty body
+			w.WriteHeader(code)
 		case string:
 			w.WriteHeader(code)
 			io.WriteString(w, d)
